@@ -927,6 +927,8 @@ def run(tier, seed):
         functions=["get_all_tokenizers", "MazeTokenizerModular.name", "MazeTokenizerModular.hash_int", "MazeTokenizerModular.__hash__", "MazeTokenizerModular.hash_b64", "MazeTokenizerModular.is_valid", "MazeTokenizerModular.is_legacy_equivalent", "MazeTokenizerModular.from_legacy", "_load_tokenizer_element", "MazeTokenizerModular.serialize/load"],
     )
     c_elem, c_tok = Capped(r_elem), Capped(r_tok)
+    global ENUM_SECONDS
+    ENUM_SECONDS = 240 if tier == "quick" else 420  # inherited by the forked enumeration child
     bg_pool = bg = None
     hash_procs = None
     try:
